@@ -14,6 +14,8 @@ STAR == Tm(42)
 DIG == Tm(100)
 COMMA == Tm(44)
 RB == Tm(93)
+MINUS == Tm(45)
+SLASH == Tm(47)
 
 Bodies(f) ==
   CASE f = "lr" -> <<AnyE(<<SeqE("of", <<Ref(1), Bt>>), A>>)>>                         \* P -> P b | a
@@ -23,6 +25,11 @@ Bodies(f) ==
     [] f = "arithnest" -> << AnyE(<<SeqE("of", <<Ref(1), PLUS, Ref(2)>>), Ref(2)>>),
                              AnyE(<<SeqE("of", <<Ref(2), STAR, Ref(3)>>), Ref(3)>>),
                              AnyE(<<SeqE("of", <<LP, Ref(1), RP>>), DIG>>) >>               \* same grammar, nested parentheses
+    [] f = "prec5" -> << AnyE(<<SeqE("of", <<Ref(1), PLUS, Ref(2)>>), Ref(2)>>),      \* five precedence levels, each left-recursive
+                         AnyE(<<SeqE("of", <<Ref(2), MINUS, Ref(3)>>), Ref(3)>>),
+                         AnyE(<<SeqE("of", <<Ref(3), STAR, Ref(4)>>), Ref(4)>>),
+                         AnyE(<<SeqE("of", <<Ref(4), SLASH, Ref(5)>>), Ref(5)>>),
+                         AnyE(<<SeqE("of", <<LP, Ref(1), RP>>), DIG>>) >>
     [] f = "lr2" -> <<AnyE(<<SeqE("of", <<Ref(1), Bt>>), SeqE("of", <<Ref(1), Ct>>), A>>)>>   \* P -> P b | P c | a
     [] f = "mutual" -> << AnyE(<<SeqE("of", <<Ref(2), X>>), A>>),                      \* P -> Q x | a
                           AnyE(<<SeqE("of", <<Ref(1), Y>>), Bt>>) >>                    \* Q -> P y | b
@@ -37,6 +44,7 @@ InputOf(f, n) ==
   CASE f = "lr" -> [i \in 1..n |-> IF i = 1 THEN 97 ELSE 98]
     [] f = "arith" -> [i \in 1..(IF n % 2 = 0 THEN n + 1 ELSE n) |-> IF i % 2 = 1 THEN 100 ELSE IF i % 4 = 2 THEN 43 ELSE 42]   \* d+d*d+d*d...
     [] f = "arithnest" -> LET k == n \div 2 IN [i \in 1..(2 * k + 1) |-> IF i <= k THEN 40 ELSE IF i = k + 1 THEN 100 ELSE 41]   \* ((((d))))
+    [] f = "prec5" -> LET k == n \div 2 IN [i \in 1..(2 * k + 1) |-> IF i <= k THEN 40 ELSE IF i = k + 1 THEN 100 ELSE 41]   \* ((((d))))
     [] f = "lr2" -> [i \in 1..n |-> IF i = 1 THEN 97 ELSE IF i % 2 = 0 THEN 98 ELSE 99]                                        \* a b c b c ...
     [] f = "mutual" -> [i \in 1..n |-> IF i = 1 THEN 97 ELSE IF i % 2 = 0 THEN 121 ELSE 120]     \* a y x y x ...  (P=a, Q=P y, P=Q x, ...)
     [] f = "hidden" -> [i \in 1..n |-> IF i = 1 THEN 97 ELSE 98]
@@ -48,7 +56,7 @@ InputOf(f, n) ==
 \* separator, a foreign last byte
 BadInputOf(f, n) ==
   LET g == InputOf(f, n) IN
-  CASE f \in {"arithnest", "brackets", "brackets2"} -> SubSeq(g, 1, (n \div 2) + 1)
+  CASE f \in {"arithnest", "brackets", "brackets2", "prec5"} -> SubSeq(g, 1, (n \div 2) + 1)
     [] f \in {"arith", "seplist"} -> SubSeq(g, 1, Len(g) - 1)
     [] OTHER -> [g EXCEPT ![Len(g)] = 122]
 
